@@ -201,7 +201,11 @@ def m_len(I, st, args, dest_ty, *r):
             if w[0] == hi:
                 return IntV.const("usize", hi)
             # the length of a token is an input of the analysis: one atom per token, so that len-k keeps its form
-            return I.new_atom("usize", "len(" + v.tag[1] + ")", w[0], hi)
+            a = I.new_atom("usize", "len(" + v.tag[1] + ")", w[0], hi)
+            fact = st.afacts.get(a.aff.key()) if a.aff is not None else None
+            if fact is not None and max(a.lo, fact[0]) <= min(a.hi, fact[1]):
+                a = IntV(a.ty, a.bits, max(a.lo, fact[0]), min(a.hi, fact[1]), a.aff, False, a.lineage, vid=a.vid)
+            return a
         return IntV.top("usize", d, 0, ISIZE_MAX, exact=False)
     if v.kind == "top" and v.tag and v.tag[0] == "strlen":
         lo, hi = v.tag[1]
